@@ -742,6 +742,15 @@ func (w *inspector) object(o Object, depth int) {
 			return
 		}
 		w.out.WriteString(v.Inspect())
+	case Quote:
+		if !w.source {
+			w.out.WriteString(v.Inspect())
+			return
+		}
+		// Saved on one line, in the compact form (the long form spans several lines, which line by line loading can't read back).
+		w.out.WriteString("quote(")
+		v.Node.PrettyPrint(&ast.PrintState{Out: w.out, Compact: true, IndentLevel: 1}) // (not the top level: blocks keep their braces)
+		w.out.WriteString(")")
 	case Function:
 		if w.source && v.Name != nil {
 			// Saved as (part of) the value of a variable: without its name, [func f(x){...}] would also (re)define f when loaded.
@@ -1287,7 +1296,7 @@ func (q Quote) Type() Type        { return QUOTE }
 func (q Quote) Inspect() string {
 	out := strings.Builder{}
 	out.WriteString("quote(")
-	q.Node.PrettyPrint(&ast.PrintState{Out: &out})
+	q.Node.PrettyPrint(&ast.PrintState{Out: &out, IndentLevel: 1}) // (not the top level: blocks keep their braces)
 	out.WriteString(")")
 	return out.String()
 }
